@@ -92,9 +92,10 @@ def run(chk, cases_override=None):
         pr = vlib.proof_step(chk, PROP_FILE, REQUIRES)
         if fut is not None:
             data, secs = fut.result()
-            cases = data["cases"]
+            cases = [c for c in data["cases"] if not c.get("skipped")]
+            skipped = len(data["cases"]) - len(cases)
         else:
-            cases, secs = cases_override, 0.0
+            cases, secs, skipped = cases_override, 0.0, 0
     mism, failing = evaluate(chk, cases, "main")
     if cases_override is None:
         run_known(chk)
@@ -112,7 +113,7 @@ def run(chk, cases_override=None):
         "trusted_base": TRUSTED,
         "evaluations": len(cases),
         "distinct_nontrivial": vlib.distinct([T.inputs(c) for c in launcher]),
-        "rule": "single WithGlobalTx scopes on the real code: exhaustive over callback outcome (nil/err/panic) x begin reply "
+        "rule": "single WithGlobalTx scopes on the real code: exhaustive over callback outcome (nil/err/panic; panic values of six dynamic types) x begin reply "
                 "(ok/failed/transport error/no reply/empty) x second-phase script (transport-failure prefix up to the tier's bound, "
                 "then ok/failed/empty or failures for ever) x retry group (commit,rollback counts incl. 0) x cancellation point "
                 "(never, before the call, during business, during the k-th second-phase send); every mode with and without a "
@@ -123,6 +124,7 @@ def run(chk, cases_override=None):
         "traces_validated_against_impl": len(cases) - len(mism),
         "oracle_failures": len(failing),
         "nested_cases": len(nested),
+        "skipped_after_hangs": skipped,
         "streams": dict(streams),
         "generators": dict(collections.Counter(c["gen"] for c in cases)),
         "harness_secs": round(secs, 1),
